@@ -41,6 +41,9 @@ def run(rep, info, model, tier, seed):
     three = [s for s in sets if len(s[0]) == 3]
     conc.run_programs(rep, model, "C11", "C11:2-threads", two, bound=(3 if tier == "quick" else 99), limit=(3000 if tier == "quick" else 200000), which="c11")
     conc.run_programs(rep, model, "C11", "C11:3-threads", three, bound=(2 if tier == "quick" else 3), limit=(2500 if tier == "quick" else 60000), which="c11")
+    # source-line granularity: the action-level reduction assumes that what happens between two shared actions is local
+    line_sets = [s for s in two if s[1] in (None, "takeover", "no_takeover")][:6] if tier == "quick" else two
+    conc.run_programs_lines(rep, "C11", "C11:line-level", line_sets, limit=(150 if tier == "quick" else 1500), which="c11")
     if not proof_ok and not rep.violations:
         rep.broken("proof obligation props/C11.v no longer checks: %s" % (rep.coq_failure,))
 
